@@ -151,7 +151,14 @@ static void print_plan(void)
     clk_of(s, kind, &den, &step, &clk);
     printf("> cr.stage kind=%s prePost=%d preload=%d isz=%d den=", !strcmp(kind, "half")? "half" : isdft? "dft" : "clocked", s->pre_post, s->preload, s->input_size);
     print_u128(den); printf(" step="); print_u128(step); printf(" clk="); print_u128(clk);
-    printf(" poly0=%d taps=%d L=%d dftLen=%d numTaps=%d M=%d remM=%d\n", !strcmp(kind, "poly0"), !strcmp(kind, "cubic")? 4 : s->n, s->L, d? d->dft_length : 0, d? d->num_taps : 1, isdft? s->step.integer : 1, s->remM);
+    printf(" poly0=%d taps=%d L=%d dftLen=%d numTaps=%d M=%d remM=%d", !strcmp(kind, "poly0"), !strcmp(kind, "cubic")? 4 : s->n, s->L, d? d->dft_length : 0, d? d->num_taps : 1, isdft? s->step.integer : 1, s->remM);
+    { /* integers that only the time-alignment model (Cr/Time.lean) reads.  num_coefs of a poly-phase stage is not kept by the
+       * library; it is the value in (n-4, n] consistent with preload and with the parity that phase0 records */
+      int nc = 0, j;
+      if (!strncmp(kind, "poly", 4)) for (j = 0; j < 4 && !nc; ++j)
+        if (s->n - j >= 1 && s->preload == ((s->n - j - 1) >> 1) + j && ((s->n - j) & 1) == (s->phase0 != 0)) nc = s->n - j;
+      printf(" pre=%d postPeak=%d nc=%d cubic=%d\n", s->pre, d? d->post_peak : 0, nc, !strcmp(kind, "cubic"));
+    }
     printf("P stage=%d kind=%s kernel=%s pre=%d prePost=%d preload=%d isz=%d n=%d L=%d phaseBits=%d hiprec=%d den=", i, kind, kernel,
         s->pre, s->pre_post, s->preload, s->input_size, s->n, s->L, s->phase_bits, (int)s->use_hi_prec_clock);
     print_u128(den); printf(" step="); print_u128(step); printf(" clk="); print_u128(clk);
